@@ -20,6 +20,9 @@ REPO = os.environ.get('VERIF_REPO', '/repo')
 DEPS = os.path.join(VERIF, '.deps')
 STATE_CAP = 4_000_000  # distinct-state digests kept exactly; beyond that the count is a lower bound
 OUT = os.environ.get('VERIF_OUT', VERIF)  # evidence/ and replays/ go here (scratch dir for mutant self-tests)
+if os.environ.get('VERIF_SCALE', '1') not in ('1', '1.0') and 'VERIF_OUT' not in os.environ:
+    # scaled experiments never overwrite the registered evidence
+    OUT = os.path.join('/tmp', 'cirbosim-scaled-out')
 WHEELS = '/opt/veriftools/wheels'
 
 
